@@ -20,7 +20,7 @@ SHARD_DEADLINE = {'quick': 300, 'thorough': 3300}
 
 def floors(tier):
     f = {'distinct_nontrivial': 6000 if tier == 'quick' else 100000, 'identity_ip_sp_lc_rc': 800, 'identity_cp_acp_gp': 800,
-         'permuted_order_cases': 500, 'swapped_pair_followups': 300, 'high_grade_blade_cases': 100, 'wrapper_configured_cases': 500, 'reflected_entry_point_cases': 100}
+         'permuted_order_cases': 500, 'swapped_pair_followups': 300, 'high_grade_blade_cases': 100, 'wrapper_configured_cases': 500, 'reflected_entry_point_cases': 100, 'graded_mode_cases': 200}
     for o in OPS7:
         f['generic_' + o] = 800
     return f
@@ -57,6 +57,8 @@ def plan(tier, seed):
         U += u(dict({'p': 2, 'q': 0, 'r': 1}, opts={'cse': False}), 'random', 1, count=20, cap=8)
         for c, w in zip(rng.sample(d2, 2) + rng.sample(d3, 3), ('wraps', 'identity', 'wraps', 'wraps', 'identity')):
             U += u(dict(c, opts={'wrapper': w}), 'sparse', 1, count=30, cap=4, perm=0.6, min_size=2)
+        for c in ({'p': 2, 'q': 0, 'r': 1}, {'p': 1, 'q': 1, 'r': 1}, {'p': 3, 'q': 0, 'r': 0}, {'p': 1, 'q': 0, 'r': 2}, {'p': 3, 'q': 0, 'r': 1}):
+            U += u(dict(c, opts={'graded': True}), 'gradeblocks', 1, count=14, cap=8)
         nshards = 16
     else:
         for c in gen.sig_orderings(1, 1):
@@ -84,6 +86,8 @@ def plan(tier, seed):
             U += u(dict(c, opts={'cse': False}), 'random', 1, count=40, cap=8)
         for c, w in zip(rng.sample(d2, 5) + rng.sample(d3, 11), ('wraps', 'identity') * 8):
             U += u(dict(c, opts={'wrapper': w}), 'sparse', 1, count=120, cap=4, perm=0.6, min_size=2)
+        for c in gen.pqr_all(2, 4):
+            U += u(dict(c, opts={'graded': True}), 'gradeblocks', 1, count=30, cap=11)
         nshards = 64
     rng.shuffle(U)
     return [{'units': part} for part in gen.split(U, nshards)]
@@ -131,6 +135,8 @@ def run_shard(shard, ctx):
                     ops.check_sympy_values(ctx, alg, iso, cfg, op, (kx, ky), cid)
                 if op != 'gp' and kx and ctx.rng.random() < 0.04:
                     ops.check_inplace_staleness(ctx, alg, cfg, lambda x, y, op=op: getattr(x, op)(y), kx, cid, op, other_keys=ky)
+                if cfg.get('opts', {}).get('graded') and op != 'gp':
+                    ctx.count('graded_mode_cases')
                 if cfg.get('opts', {}).get('wrapper') and op != 'gp':
                     ctx.count('wrapper_configured_cases')
                 # the two infix operators among the seven, reached through their reflected entry points
